@@ -1,4 +1,5 @@
 import GoHeader.Oracle.Common
+import GoHeader.Sync.TailInit
 import GoHeader.Sync.Head
 namespace GoHeader.Oracle
 open GoHeader GoHeader.SHead
@@ -195,6 +196,15 @@ def evalC19Flight (ins outs : List String) : Verdict :=
   match kvNat? ins "n", kvNat? outs "reqs", kv? outs "results" with
   | some n, some reqs, some results =>
     let rs := results.splitOn ","
+    -- the slow first tail fetch on an empty store: the model (TailInit, repaired) lets every caller succeed
+    let slowTailFail : Option String :=
+      if kv? ins "prior" == some "slowtail" then
+        let m := TailInit.run true {} ((List.range n).map TailInit.Ev.arrive ++ List.replicate n (TailInit.Ev.finish true))
+        if m.results.length != n || !m.results.all (·.2) then some "model" else
+        if rs.any (· == "err") then some "impl" else none
+      else none
+    if slowTailFail == some "model" then .bad "TailInit model: not every caller finished" else
+    if slowTailFail == some "impl" then .prop "c19_singleflight_shared_result" s!"empty store, slow first tail fetch: the shared head request succeeded, yet callers failed: {results}" else
     if (kv? ins "answer").any (fun a => a.startsWith "softbad" || a.startsWith "softnopath") && rs.any (· == "44") then .prop "c19_soft_failing_head_not_adopted" results else
     if rs.any (· == "panic") then .prop "c19_singleflight_shared_result" s!"a caller panicked: {results}" else
     if reqs != 1 then .prop "c19_singleflight_one_request" s!"reqs={reqs} n={n}"
